@@ -23,7 +23,7 @@ import LMV.Driver.Util
 namespace LMV.Driver.C01
 open LMV LMV.Driver LMV.Score
 
-def ops : List String := ["c01"]
+def ops : List String := ["c01", "c01isa"]
 
 structure Carrier (α : Type) where
   zero : α
@@ -35,8 +35,14 @@ structure Carrier (α : Type) where
 def f32 : Carrier Float32 :=
   ⟨Float32.ofBits 0, (· + ·), (· + ·), fun n => Float32.ofBits n.toUInt32, fun x => x.toBits.toNat⟩
 
-def u8 : Carrier UInt8 :=
-  ⟨0, (· + ·), fun x y => if x.toNat + y.toNat > 255 then 255 else x + y, fun n => n.toUInt8, fun x => x.toNat⟩
+def u8 : Carrier Nat := ⟨0, u8Wrap, u8Sat, fun n => n % 256, id⟩
+
+/-- `Util.fnvNats` (FNV-1a over 8 little-endian bytes per number) without the intermediate lists -/
+def fnv1 (h : UInt64) (x : UInt64) : UInt64 :=
+  let step (h : UInt64) (k : UInt64) : UInt64 := (h ^^^ ((x >>> k) &&& 0xff)) * 0x100000001b3
+  step (step (step (step (step (step (step (step h 0) 8) 16) 24) 32) 40) 48) 56
+
+def fnvFast (xs : List Nat) : UInt64 := xs.foldl (fun h x => fnv1 h x.toUInt64) 0xcbf29ce484222325
 
 def observe {α : Type} {C : Nat} (cr : Carrier α) (sc : Scores α C) : String :=
   let cells := (List.range sc.data.rows).flatMap fun r =>
@@ -46,10 +52,10 @@ def observe {α : Type} {C : Nat} (cr : Carrier α) (sc : Scores α C) : String 
     match acc, index cr.zero sc i with
     | some l, .ok v => some (cr.toNat v :: l)
     | _, _ => none) (some [])
-  let idxs := match idx with | some l => toString (fnvNats l.reverse) | none => "X"
+  let idxs := match idx with | some l => toString (fnvFast l.reverse) | none => "X"
   let off := if sc.data.rows = 0 then 0 else offset sc (sc.data.rows - 1) (C - 1)
   let dump := if cells.length ≤ 64 then " [" ++ joinNat cells ++ "]" else ""
-  s!"{sc.data.rows} {sc.maxIndex} {fnvNats cells} {un.length} {fnvNats un} {idxs} {off}{dump}"
+  s!"{sc.data.rows} {sc.maxIndex} {fnvFast cells} {un.length} {fnvFast un} {idxs} {off}{dump}"
 
 def armOf (s : String) : Arm :=
   if s == "disp-avx2" || s == "avx2" then .avx2 else if s == "disp-sse2" || s == "sse2" then .sse2 else .generic
@@ -139,9 +145,41 @@ def runCase {α : Type} (cr : Carrier α) (isU8 : Bool) (A : Alphabet) (toks : L
     | _ => "bad-case"
   | _ => "bad-case"
 
-/-- `c01 <dna|protein> <f32|u8> …` -/
+
+/-! ### ISA validation: `c01isa <intrinsic> <operands…>` replayed through LMV/Isa -/
+
+open LMV.Isa in
+def handleIsa (op : String) (v : Array Nat) : String :=
+  let at' (i : Nat) : Nat := v.getD i 0
+  let f32of (n : Nat) : Float32 := Float32.ofBits n.toUInt32
+  match op with
+  | "shuf" =>
+    joinNat ((List.range 32).map fun i => shuffleEpi8 0 (fun k => at' k) (fun k => at' (32 + k)) i)
+  | "bcast" => joinNat ((List.range 32).map fun i => broadcastsi128 (fun k => at' k) i)
+  | "dword" => joinNat ((List.range 8).map fun l => dwordLE (fun k => at' k) l)
+  | "pvar" => joinNat ((List.range 8).map fun l => permutevar8x32 (fun k => at' k) (fun k => at' (8 + k)) l)
+  | "p2f" =>
+    joinNat ((List.range 8).map fun l =>
+      Isa.apply 0 (permute2f128 (at' 0)) (fun k => at' (1 + k)) (fun k => at' (9 + k)) l)
+  | "gath" =>
+    let n := at' 0
+    let base := at' (1 + n)
+    joinNat ((List.range 8).map fun l =>
+      i32gatherPs (fun (k : Int) => at' (1 + (Int.ofNat base + k).toNat)) (fun k => at' (2 + n + k)) l)
+  | "unpk" =>
+    joinNat ((List.range 16).map fun i =>
+      Isa.apply 0 (mmUnpackEpi8 (at' 0 == 1)) (fun k => at' (1 + k)) (fun k => at' (17 + k)) i)
+  | "cmpand" =>
+    joinNat ((List.range 4).map fun l =>
+      andPsMask 0 (at' (8 + l)) (cmpeqEpi32 (fun k => at' k) (fun k => at' (4 + k)) l))
+  | "adds" => joinNat ((List.range 32).map fun i => u8Sat (at' i) (at' (32 + i)))
+  | "addps" => joinNat ((List.range 8).map fun l => (f32of (at' l) + f32of (at' (8 + l))).toBits.toNat)
+  | _ => "bad-op"
+
+/-- `c01 <dna|protein> <f32|u8> …`  /  `c01isa <intrinsic> …` -/
 def handle (toks : List String) : String :=
   match toks with
+  | "c01isa" :: op :: rest => handleIsa op (rest.map parseNat!).toArray
   | _ :: alpha :: ty :: rest =>
     let A := if alpha == "dna" then dna else protein
     if ty == "u8" then runCase u8 true A rest else runCase f32 false A rest
